@@ -141,7 +141,7 @@ class State(object):
                 v = v.clone()           # per-path object state
             elif isinstance(v, list):
                 v = list(v)
-            elif k == "__alias__":
+            elif k in ("__alias__", "__views__", "__ranks__"):
                 v = dict(v)
             env[k] = v
         return State(env, self.ret, self.conds + ((cond,) if cond else ()), self.flow, self.facts,
@@ -428,10 +428,36 @@ class Interp(object):
             tn = st.targets[0].id
             if isinstance(st.value, ast.Call) and norm_text(st.value.func).split(".")[-1] in ALLOCATORS:
                 s.env["__arrays__"] = arrs | {tn}
+                a0 = st.value.args[0] if st.value.args else None
+                if norm_text(st.value.func).split(".")[-1] in ("zeros", "ones", "empty", "full") and isinstance(a0, (ast.Tuple, ast.List)):
+                    rk = dict(s.env.get("__ranks__", {}))
+                    rk[tn] = len(a0.elts)
+                    s.env["__ranks__"] = rk
             elif isinstance(st.value, ast.Name) and st.value.id in arrs:
                 s.env["__arrays__"] = arrs | {tn}
             elif tn in arrs:
                 s.env["__arrays__"] = arrs - {tn}
+        # `t = a[i]` / `t = a[i:j]` on an array is a *view*: an in-place operator on t writes into a
+        if len(st.targets) == 1 and isinstance(st.targets[0], ast.Name):
+            vw = dict(s.env.get("__views__", {}))
+            tn = st.targets[0].id
+            vw.pop(tn, None)
+            if isinstance(st.value, ast.Subscript) and isinstance(st.value.value, ast.Name) and isinstance(v, Rat):
+                bn = st.value.value.id
+                sl = st.value.slice
+                parts = sl.elts if isinstance(sl, ast.Tuple) else [sl]
+                n_int = sum(1 for x in parts if not isinstance(x, ast.Slice) and not (isinstance(x, ast.Constant) and x.value in (None, Ellipsis)))
+                has_slice = any(isinstance(x, ast.Slice) for x in parts)
+                rank = s.env.get("__ranks__", {}).get(bn)
+                is_arr = bn in s.env.get("__arrays__", ()) or maybe_array(s.env.get(bn))
+                if is_arr and (has_slice or (rank is not None and n_int < rank)):
+                    vw[tn] = (st.value.value, st.value.slice, "view")
+                elif is_arr and rank is None:
+                    vw[tn] = (st.value.value, st.value.slice, "maybe")
+            # any rebinding of the base invalidates views of it
+            for k_ in [k_ for k_, x in vw.items() if isinstance(x[0], ast.Name) and x[0].id == tn]:
+                vw.pop(k_)
+            s.env["__views__"] = vw
         # `a = b` binds a second name to the same array object: remember it, an in-place update of one is one of both
         if len(st.targets) == 1 and isinstance(st.targets[0], ast.Name) and isinstance(st.value, ast.Name) \
                 and st.targets[0].id != st.value.id and (maybe_array(v) or st.value.id in s.env.get("__arrays__", ())):
@@ -471,8 +497,21 @@ class Interp(object):
                 if isinstance(t.value, ast.Name):
                     self._alias_update(t.value.id, nv, s, ctx, st)
             return [s]
+        vw = s.env.get("__views__", {}).get(t.id) if isinstance(t, ast.Name) else None
+        if vw is not None and vw[2] == "view":
+            # in-place operator through a view: it is the store  base[index] op= rhs
+            sub = ast.Subscript(value=vw[0], slice=vw[1], ctx=ast.Store())
+            node = ast.AugAssign(target=sub, op=st.op, value=st.value)
+            ast.copy_location(node, st)
+            ast.fix_missing_locations(node)
+            out = self.st_AugAssign(node, s, ctx)
+            for s_ in out:
+                s_.env[t.id] = self.ev(ast.Subscript(value=vw[0], slice=vw[1], ctx=ast.Load()), s_.env, ctx)
+            return out
         cur = self.ev(_load(t), s.env, ctx)
         new = self.binop(st.op, cur, rhs)
+        if vw is not None and vw[2] == "maybe" and maybe_array(cur):
+            new = unk("inplace_on_element_or_view", t.id, st.lineno)
         grp = s.env.get("__alias__", {}).get(t.id) if isinstance(t, ast.Name) else None
         self.assign(t, new, s, ctx, st, aug=True)
         if grp and (maybe_array(cur) or t.id in s.env.get("__arrays__", ())):
@@ -712,7 +751,19 @@ class Interp(object):
         rets = [o for o in outs if o.ret is not NORET and o.ret is not RAISE]
         for o in live:
             self.loop_log.append((fq, st.lineno, tv, it, o.env, o.conds, o.cond_nf))
-        # state after the loop
+        # state after the loop.  Inside a summary (loopsum / loopstore / loopfinal) the loop variable is a *bound* variable:
+        # it is renamed (L@d -> B@d) so that it can never be captured by a later loop at the same depth.
+        btag = "B" + tag[1:]
+
+        def bound(v):
+            if not isinstance(v, Rat):
+                return v
+
+            def f(a):
+                if isinstance(a, Sym) and (a.name == tag or a.name == tag + "#"):
+                    return Rat.atom(Sym(btag + a.name[len(tag):], a.flags))
+                return None
+            return v.subst(f)
         after = s
         # lists built by .append inside the body (one symbolic iteration per live path): keep what the body appended
         for n, v0 in list(s.env.items()):
@@ -742,13 +793,13 @@ class Interp(object):
                 # body evaluated with env[n] = entry value: increment = total - entry
                 if isinstance(total, Rat):
                     inc = total - entry[n]
-                    after.env[n] = entry[n] + Rat.atom(Fn("loopsum", (inc, tag, _itkey(it))))
+                    after.env[n] = entry[n] + Rat.atom(Fn("loopsum", (bound(inc), btag, _itkey(it))))
                     continue
             vals = [o.env.get(n) for o in live]
             if vals and all(isinstance(v, Rat) and v.single_atom() is not None and
                             isinstance(v.single_atom(), Fn) and v.single_atom().name == "setitem"
                             for v in vals) and len(vals) == 1:
-                after.env[n] = Rat.atom(Fn("loopstore", (vals[0], tag, _itkey(it))))
+                after.env[n] = Rat.atom(Fn("loopstore", (bound(vals[0]), btag, _itkey(it))))
                 continue
             if vals and all(isinstance(v, list) for v in vals):
                 after.env[n] = unk("looplist", n, st.lineno)
@@ -757,7 +808,7 @@ class Interp(object):
                     (n not in entry or isinstance(entry[n], Rat)):
                 # plain (non-accumulating) assignment in the body: value of the last iteration,
                 # or the entry value when the loop does not run
-                after.env[n] = Rat.atom(Fn("loopfinal", (entry.get(n), vals[0], tag, _itkey(it))))
+                after.env[n] = Rat.atom(Fn("loopfinal", (entry.get(n), bound(vals[0]), btag, _itkey(it))))
                 continue
             after.env[n] = unk("loop", n, st.lineno)
         for n in tnames:
@@ -769,7 +820,7 @@ class Interp(object):
                 cur = o.attrs.get(a.attr)
                 if isinstance(cur, Rat) and cur.single_atom() is not None and \
                         isinstance(cur.single_atom(), Fn) and cur.single_atom().name in ("setitem",):
-                    o.attrs[a.attr] = Rat.atom(Fn("loopstore", (cur, tag, _itkey(it))))
+                    o.attrs[a.attr] = Rat.atom(Fn("loopstore", (bound(cur), btag, _itkey(it))))
                 elif isinstance(cur, list):
                     pass
                 else:
@@ -1273,8 +1324,6 @@ class Interp(object):
                 lc, rc = pyconst(l), pyconst(r)
                 if isinstance(lc, (int, float)) and isinstance(rc, (int, float)) and rc != 0:
                     return Rat.const(lc // rc)
-                if self.int_transparent and isinstance(l, Rat) and isinstance(r, Rat):
-                    return l / r            # same convention as int(a / b) under int_transparent
                 return Rat.atom(Fn("floordiv", (l, r)))
             if isinstance(op, ast.Mod):
                 lc, rc = pyconst(l), pyconst(r)
@@ -1453,6 +1502,18 @@ class Interp(object):
         return Rat.atom(Fn("?method_" + name, (x,) + tuple(args)))
 
     def call_ext(self, dotted, args, kwargs, e, env, ctx):
+        # handlers read the routine's name from the call node: when the routine is reached through a local name
+        # (f = numpy.cos; f(x)) give them a node that spells the resolved name
+        if isinstance(e, ast.Call) and norm_text(e.func).split(".")[-1] != dotted.split(".")[-1]:
+            import copy as _copy
+            e2 = _copy.copy(e)
+            try:
+                e2.func = ast.copy_location(ast.parse(dotted, mode="eval").body, e.func)
+                for sub_ in ast.walk(e2.func):
+                    ast.copy_location(sub_, e.func)
+                e = e2
+            except SyntaxError:
+                pass
         h = EXT_CALLS.get(dotted)
         if h is not None:
             r = h(self, args, kwargs, e, env, ctx)
